@@ -65,9 +65,20 @@ Definition model_obs (c : c16_in) : c16_obs :=
   | InSer h r => ObSer (serialize_top h r)
   end.
 
+(* the registration walk of every operation is closed under "class mentions class" (its fuel sufficed) *)
+Definition reach_closed (ct : list cls) (T : ty) : bool :=
+  let R := reach ct T in
+  forallb (fun c => mem_N c R) (ty_classes T) && forallb (fun c => forallb (fun d => mem_N d R) (cls_refs ct c)) R.
+Definition op_reach_closed (ct : list cls) (o : op) : bool :=
+  match o with
+  | OpStructure T _ => reach_closed ct T
+  | OpUnstructure (VData c _) => reach_closed ct (TData c)
+  | _ => true
+  end.
+
 Definition guards (c : c16_in) : list bool :=
   match c with
-  | InConv _ _ _ => [true]
+  | InConv _ ct ops => [true; forallb (op_reach_closed ct) ops]
   | InSer h r => [guard_F16a h r]
   end.
 
